@@ -50,7 +50,7 @@ impl LibOpts {
 
 pub fn gen_keys(rng: &mut Rng, n: usize, subdirs: bool) -> Vec<String> {
     let mut keys = vec![];
-    let dirs = ["", "", "", "d1", "d2", "d1/e1"];
+    let dirs = ["", "", "", "d1", "d2", "d1/e1", "d11"];
     for i in 0..n {
         let dir = if subdirs { *rng.pick(&dirs) } else { "" };
         let name = format!("n{}", i + 1);
